@@ -34,6 +34,11 @@ EXTRA = [
     {"op": "subtract", "family": "elementwise", "desc": "a 1 b, b -> a b", "shapes": [(2, 1, 3), (3,)], "kwargs": {}},
     {"op": "less", "family": "elementwise", "desc": "a, b -> a b c", "shapes": [(2,), (3,)], "kwargs": {"c": 4}},
     {"op": "logaddexp", "family": "elementwise", "desc": "((a b) c), c -> c b a", "shapes": [(12,), (2,)], "kwargs": {"a": 2, "b": 3}},
+    # permutations that are not involutions (a 3-cycle differs from its inverse), in the operand alignment and after the call
+    {"op": "add", "family": "elementwise", "desc": "a b c, c a b -> b c a", "shapes": [(2, 3, 4), (4, 2, 3)], "kwargs": {}},
+    {"op": "greater", "family": "elementwise", "desc": "c a b, a -> a b c", "shapes": [(4, 2, 3), (2,)], "kwargs": {}},
+    {"op": "sum", "family": "reduce", "desc": "a [b] c d -> d a c", "shapes": [(2, 3, 4, 5)], "kwargs": {}},
+    {"op": "max", "family": "reduce", "desc": "(a b) c [d] -> c a b", "shapes": [(6, 4, 2)], "kwargs": {"a": 2}},
     {"op": "sum", "family": "reduce", "desc": "a [b] (c [d]) 1 -> c a 1", "shapes": [(2, 3, 8, 1)], "kwargs": {"c": 2}},
     {"op": "sum", "family": "reduce", "desc": "a [b] (c [d]) 1", "shapes": [(2, 3, 8, 1)], "kwargs": {"c": 2, "keepdims": True}},
     {"op": "max", "family": "reduce", "desc": "[a b]", "shapes": [(2, 3)], "kwargs": {}},
@@ -49,9 +54,9 @@ def lower_tie(ctx, n, SizedCall, variants, prefix="lower"):
     rng = ctx.rng
     done = 0
     tries = 0
-    extra = list(EXTRA)
+    extra = list(EXTRA)          # all hand-written calls on every run, then generated ones
     rng.shuffle(extra)
-    extra = extra[: max(6, n // 3)]
+    n = max(n, len(extra) + 4)
     while done < n and tries < 6 * n:
         tries += 1
         if extra:
